@@ -51,7 +51,13 @@ def seq(*xs):
 def ptm(e, top=False):
     k = e[0]
     if k in ("t", "n"):
+        if len(e) > 2 and e[2]:
+            from vlib import tmplgram
+            return e[1] + tmplgram.pargs(e[2])
         return e[1]
+    if k == "cond":
+        from vlib import tmplgram
+        return "[" + tmplgram.ppred(e[1]) + "] " + ptm(e[2], True)
     if k == "seq":
         if not e[1]:
             return "%empty" if top else ""
@@ -93,6 +99,9 @@ def ptm(e, top=False):
 
 
 def print_tm(g, opts=None):
+    if g.get("tnts"):
+        from vlib import tmplgram
+        return tmplgram.print_tm(g, opts)
     body = []
     for name, alts in g["nts"]:
         rows = []
